@@ -119,6 +119,19 @@ except Exception as e:  # noqa
     miss.append(f'extract_schedule: {e}')
     ss = None
 
+try:
+    import extract_pass
+    try:
+        ps = extract_pass.extract(open(os.path.join(src, 'schedule.py')).read())
+        ok.append('pass_src')
+    except Exception as e:  # noqa
+        ps = extract_pass.PINNED
+        miss.append(f'pass_src: {e}')
+    vals['pass_src'] = ps
+except Exception as e:  # noqa
+    miss.append(f'extract_pass: {e}')
+    ps = None
+
 
 def write_if_changed(path, content):
     os.makedirs(os.path.dirname(path), exist_ok=True)
@@ -151,6 +164,8 @@ if cs is not None:
     write_if_changed(os.path.join(lean, 'PjVerif', 'Extracted', 'CalendarSrc.lean'), extract_calendar.to_lean(cs))
 if ss is not None:
     write_if_changed(os.path.join(lean, 'PjVerif', 'Extracted', 'ScheduleSrc.lean'), extract_schedule.to_lean(ss))
+if ps is not None:
+    write_if_changed(os.path.join(lean, 'PjVerif', 'Extracted', 'PassSrc.lean'), extract_pass.to_lean(ps))
 os.makedirs(os.path.join(verif, 'out'), exist_ok=True)
 write_if_changed(os.path.join(verif, 'out', 'extracted.json'), json.dumps(vals, indent=1))
 print(json.dumps({'ok': ok, 'miss': miss}))
